@@ -80,6 +80,7 @@ PL_Regions == [A1 |-> SL!Str("A", "1"), A2 |-> SL!Pair(SL!IntN(1), SL!IntN(2)), 
                list2 |-> SL!Lst(<<SL!Str("A", "1"), SL!Pair(SL!IntN(2), SL!IntN(2))>>),
                list2b |-> SL!Lst(<<SL!Pair(SL!Lbl("A"), SL!IntN(2)), SL!Str("B", "1")>>),
                listR |-> SL!Lst(<<SL!Str("B", "1"), SL!Pair(SL!IntN(1), SL!IntN(2))>>),   \* a list that is NOT in row-major order: B1, A2
+               listA |-> SL!Lst(<<SL!Str("A", "1"), SL!Pair(SL!IntN(1), SL!IntN(2))>>),   \* A1, A2 (also on the 1x2 plate)
                list1 |-> SL!Lst(<<SL!Str("B", "2")>>),         \* a list of ONE well: shape <<1>>, not the single well B2 (shape <<1, 1>>)
                list1q |-> SL!Lst(<<SL!Pair(SL!IntN(1), SL!IntN(1))>>),
                \* narrowed selections: plate[:][1::2] (= row 2) and plate[:, 1:][0:2:2, 1:] (= well A,2)
@@ -100,6 +101,8 @@ PL_Forms == <<
   F4("p", "list2", "p", "list2b"), F4("p", "list2", "p", "row1"), F4("p", "col2", "p", "col1"),
   \* a list in another order than the plate's: into it, out of it, element-wise with a list in plate order
   F4("s", "-", "p", "listR"), F4("p", "listR", "t", "-"), F4("p", "listR", "q", "all"),
+  \* element-wise between two lists, one of them not in row-major order: B1 -> A1 and A2 -> A2 of the other plate, and back
+  F4("p", "listR", "q", "listA"), F4("q", "listA", "p", "listR"),
   \* one-element lists against several wells (no pairing form: rejected) and against one another (element-wise)
   F4("p", "list1", "p", "row1"), F4("p", "row1", "p", "list1"), F4("p", "list1", "q", "all"), F4("p", "list1", "q", "list1q"),
   \* cross plate
